@@ -831,6 +831,10 @@ fn relations(tier: Tier) -> Vec<Rel> {
     // large sparse extensions (12..=18 variables, up to 9000 stored entries): oracle over the support only
     out.push(Rel::new("sparse-large/bls12_381.Fr", tier.pick(600, 6000), 40, |t, o| large::sparse_large_rel::<ark_test_curves::bls12_381::Fr>(t, o)).shrink_iters(200));
     out.push(Rel::new("dense-large/bls12_381.Fr", tier.pick(40, 600), 48, |t, o| large::dense_large_rel::<ark_test_curves::bls12_381::Fr>(t, o)).shrink_iters(60));
+    // 19..=22 variables: a handful of cases (each allocates up to 2^22-entry tables), split so that they run in parallel
+    for k in 0..4 {
+        out.push(Rel::new(format!("dense-huge/Gold.{}", k), tier.pick(5, 40), 48, |t, o| large::dense_huge_rel::<vh_core::zoo::Gold>(t, o)).shrink_iters(6));
+    }
     out.push(Rel::new("dense-large/Gold", tier.pick(120, 2000), 48, |t, o| large::dense_large_rel::<vh_core::zoo::Gold>(t, o)).shrink_iters(60));
     out.push(Rel::new("sparse-large/Gold", tier.pick(1000, 10000), 40, |t, o| large::sparse_large_rel::<vh_core::zoo::Gold>(t, o)).shrink_iters(200));
     out
@@ -839,7 +843,7 @@ fn relations(tier: Tier) -> Vec<Rel> {
 fn main() {
     vh_core::engine::main(PropSpec {
         id: "C17",
-        rule: "Tables of 2^n field values (n = 0..10, thorough 14; zero, 1-6 non-zero entries, ~sqrt(2^n) entries, dense from the tape or expanded from a tape word) over BLS12-381 Fr and the toy field F_97 are built as dense and as sparse extensions (sparse: distinct indices in a tape-chosen order, optional explicit zero entries); points are Boolean, uniform or mixed edge values; every prefix length 0..=n is bound; relabel windows are k=0, a=b or disjoint windows including b+k=n, in both orders; operands of + - neg scale += -= +=(f,.) are tables of equal arity or the Zero representation; concat takes 0..5 tables of equal or different sizes. Oracle: the definition f(x) = sum_b T[b] prod_i (b_i x_i + (1-b_i)(1-x_i)) computed by one product per index (bit i <-> variable i), tables read through Index. Multivariate: term lists with duplicates, cancelling and zero coefficients, unordered/repeated variables, zero exponents, 0..6 variables; oracle = sum of c*prod x_v^e on the raw list and a BTreeMap normal form for term count and degree. A case is non-trivial when it has >= 2 variables, >= 2 non-zero table entries (multivariate: >= 2 non-zero merged terms) and, where a point is an input, a non-Boolean point (relabel: a non-empty swap); distinct = distinct decoded choice sequences. Added: multivariate exponents up to 2^58 (classes 2^a, 2^a +- 1, 2^a + uniform for a = 6..57; oracle uses Field::pow for exponents above 64); the random constructors (relations rand, mv.rand; StdRng seeded from the tape): DenseMultilinearExtension::rand(n) has n variables and 2^n entries, SparseMultilinearExtension::rand_with_config(n, k) stores exactly k entries with indices below 2^n and Index/to_evaluations agree with the stored map, SparseMultilinearExtension::rand(n) stores sqrt(2^n) entries (exactly 2^(n/2) for even n, between the neighbouring powers of two for odd n), multivariate rand(d, l) has l variables, only univariate terms x_v^e with v < l, 1 <= e <= d (plus a constant), no monomial twice, degree <= d (= d and 1 + l*d terms over the 255-bit field) and evaluates to the sum of its stored terms; IntoIterator for &mut dense; concat over an owned Vec and over slice::Iter. Relation mv.many-terms: term lists of 21..1500 (thorough 6000) terms over 1..5 variables with exponents <= 3 expanded from one tape word (many terms share a monomial or a total degree; the right operand repeats left terms negated) through from_coefficients_vec/slice (normal form) and + - +=(f,.). Large regime (own relations): sparse extensions of 12..=18 variables with up to 9000 stored entries (entry counts around 2^10..2^13) checked against sums over the stored entries - evaluate, fix_variables (table of the restriction), relabel (the stored map must be the image of the stored map under the window exchange; class: more than 1024 entries with an index and its image both stored); dense tables of 10..=18 variables - fix_variables for partial points of length 0..6, n and uniform against sum_low table[j*2^dim+low]*eq(low, point), evaluate, relabel against the bit-window permutation.",
+        rule: "Tables of 2^n field values (n = 0..10, thorough 14; zero, 1-6 non-zero entries, ~sqrt(2^n) entries, dense from the tape or expanded from a tape word) over BLS12-381 Fr and the toy field F_97 are built as dense and as sparse extensions (sparse: distinct indices in a tape-chosen order, optional explicit zero entries); points are Boolean, uniform or mixed edge values; every prefix length 0..=n is bound; relabel windows are k=0, a=b or disjoint windows including b+k=n, in both orders; operands of + - neg scale += -= +=(f,.) are tables of equal arity or the Zero representation; concat takes 0..5 tables of equal or different sizes. Oracle: the definition f(x) = sum_b T[b] prod_i (b_i x_i + (1-b_i)(1-x_i)) computed by one product per index (bit i <-> variable i), tables read through Index. Multivariate: term lists with duplicates, cancelling and zero coefficients, unordered/repeated variables, zero exponents, 0..6 variables; oracle = sum of c*prod x_v^e on the raw list and a BTreeMap normal form for term count and degree. A case is non-trivial when it has >= 2 variables, >= 2 non-zero table entries (multivariate: >= 2 non-zero merged terms) and, where a point is an input, a non-Boolean point (relabel: a non-empty swap); distinct = distinct decoded choice sequences. Added: multivariate exponents up to 2^58 (classes 2^a, 2^a +- 1, 2^a + uniform for a = 6..57; oracle uses Field::pow for exponents above 64); the random constructors (relations rand, mv.rand; StdRng seeded from the tape): DenseMultilinearExtension::rand(n) has n variables and 2^n entries, SparseMultilinearExtension::rand_with_config(n, k) stores exactly k entries with indices below 2^n and Index/to_evaluations agree with the stored map, SparseMultilinearExtension::rand(n) stores sqrt(2^n) entries (exactly 2^(n/2) for even n, between the neighbouring powers of two for odd n), multivariate rand(d, l) has l variables, only univariate terms x_v^e with v < l, 1 <= e <= d (plus a constant), no monomial twice, degree <= d (= d and 1 + l*d terms over the 255-bit field) and evaluates to the sum of its stored terms; IntoIterator for &mut dense; concat over an owned Vec and over slice::Iter. Relation mv.many-terms: term lists of 21..1500 (thorough 6000) terms over 1..5 variables with exponents <= 3 expanded from one tape word (many terms share a monomial or a total degree; the right operand repeats left terms negated) through from_coefficients_vec/slice (normal form) and + - +=(f,.). Large regime (own relations): sparse extensions of 12..=18 variables with up to 9000 stored entries (entry counts around 2^10..2^13) checked against sums over the stored entries - evaluate, fix_variables (table of the restriction), relabel (the stored map must be the image of the stored map under the window exchange; class: more than 1024 entries with an index and its image both stored); dense tables of 10..=18 variables (dense-huge: 19..=22 variables, a few cases per run) - fix_variables for partial points of length 0..6, n and uniform against sum_low table[j*2^dim+low]*eq(low, point), evaluate, relabel against the bit-window permutation.",
         assumptions: &[
             "prime-field arithmetic of ark-ff is correct (subject of C01/C02); it is used inside the oracle",
             "overlapping relabel windows and operands of different non-zero arity are documented panics and are not generated",
